@@ -204,7 +204,7 @@ def main(argv: list[str]) -> int:
         for r in reasons[:10]:
             print(f"INCONCLUSIVE property={pid} reason={r}")
         return 2
-    print(f"HELD property={pid} on everything observed")
+    print(f"HELD property={pid} on everything observed" + (" (apart from the known findings listed above)" if known_hits else ""))
     return 0
 
 
